@@ -30,7 +30,25 @@ def site(fi, node=None):
 
 def pu2(m, run, P=None):
     P = P or Purity(m)
+    # rotation without inplace is decided on an abstract shape for every axis (RT5: argument untouched, result an independent rotated copy);
+    # the purity summaries of operations.rotate corroborate - they follow direct calls, not a dispatch through a table of helpers
+    from .. import skel_drivers as _sd5
+    n5 = len(run.obs)
+    try:
+        _sd5.rt5(m, run)
+    except AnalysisError as ex:
+        run.error(str(ex))
+    rt_ok = len(run.obs) > n5 and all(o.ok for o in run.obs[n5:])
     for key in INPLACE_FUNCS:
+        if key == 'operations.rotate':
+            with run.corroborating(rt_ok, 'RT5', rules=(), only=lambda o: o.rule.startswith('PU2') and 'operations.rotate' in o.key):
+                _pu2_one(m, run, P, key)
+        else:
+            _pu2_one(m, run, P, key)
+
+
+def _pu2_one(m, run, P, key):
+    if True:
         fi = m.func(key)
         p0 = params_of(fi.node)[0]
         root = 'param:' + p0
